@@ -858,6 +858,12 @@ def gen_ops(rng, cfg, profile='C01', nmax=24):
             requested.append(k)
             if profile == 'C02' and g.chance(0.35):
                 ops.append({'op': 'TOUCH_ALL'})
+    if 'Weyl_Psi4' in cfg.get('extra_inputs', []) and g.chance(0.6):
+        # a supplied Psi4 (possibly with an excised point): the scalars are
+        # handed out, then the mode decomposition interpolates them
+        at = g.randint(0, len(ops))
+        ops[at:at] = [{'op': 'GET', 'key': 'Weyl_Psi'},
+                      {'op': 'GET', 'key': 'Psi4_lm'}]
     if g.chance({'C01': 0.5, 'C02': 0.3, 'C03': 0.3}.get(profile, 0.0)):
         ops.append({'op': 'AUDIT', 'n': g.randint(4, 14),
                     'seed': g.randrange(1 << 30)})
